@@ -18,7 +18,7 @@ func init() {
 			"and the refusal edge returns at once without any blocking operation; (O2) membership typestate: after the enqueue every path to return has the caller's element " +
 			"evicted exactly once - the hand-off case relies on the sender's eviction (which unblock performs before delivering, on the same path), the timeout and cancel " +
 			"cases evict the caller's own element exactly once (directly or through a helper that calls its EvictFunc parameter exactly once on every path), and an eviction " +
-			"removes exactly the element it was built for; the backlog length is the list's own length (no mirrored counter); (O3) gauges: queue_size is the backlog's length " +
+			"removes exactly the element it was built for; the backlog length is the list's own length, or a counter proved to mirror it (steps of one under the queue's exclusive mutex, paired with insertions and removals on every path, the step down behind a first-time flag); (O3) gauges: queue_size is the backlog's length " +
 			"accessor reading the list under the queue mutex, queue_limit derives from the configured maximum. Numeric equality of reported size and number of blocked callers " +
 			"at every instant of a concurrent history is their consequence, not separately decided.",
 	})
